@@ -52,9 +52,10 @@ def _mix(*xs):
 class Scripted:
     """Stand-in for the `random` module: answers come from a script, defaults afterwards."""
 
-    def __init__(self, seed=0, full_choice=False):
+    def __init__(self, seed=0, full_choice=False, record_callers=False):
         self.seed_value = seed
         self.full_choice = full_choice    # C09 atom pass: every index of every choice()
+        self.record_callers = record_callers   # C17: name the d42 function behind each draw
         self.prefix = []
         self.trace = []                   # (choice, menu_size)
         self.sites = []                   # (kind, args summary) per choice point
@@ -74,6 +75,12 @@ class Scripted:
         else:
             c = 0
         self.trace.append((c, len(menu)))
+        if self.record_callers:
+            f = sys._getframe(2)
+            while f is not None and f.f_code.co_filename.endswith(("e2.py", "_random.py")):
+                f = f.f_back
+            who = "?" if f is None else f"{f.f_code.co_filename.rsplit('/', 1)[-1]}:{f.f_code.co_name}"
+            site = site + (who,)
         self.sites.append(site)
         return menu[c]
 
